@@ -764,9 +764,22 @@ pub fn gen_refs(sim: &mut Sim, shared_consumer: bool) -> Program {
             let h = holder_outs.remove(k);
             let u = g.node2(Op::Union, state_out, h, Order::Bag, false);
             g.sink(u);
-        } else if g.sim.flip("state_consumer", 1, 2) {
-            // optionally the state also flows on through a pipe (after every reference holder)
-            g.sink(state_out);
+        } else {
+            // the slot's pipe consumer: none, a plain consumer, or a deferred one (the holders of
+            // this tick still see this tick's value; the deferred consumer gets it next tick)
+            // (deferred consumers only for `handoff()`: `singleton()/optional() -> defer_tick()` is
+            // accepted by dfir_lang but rejected by rustc — the deferred buffer is declared as a Vec
+            // while the send side uses Option methods; compile-time territory, see FINDINGS N3)
+            let vec_slot = matches!(g.nodes[hoff].op, Op::HoffVec);
+            let w: [u64; 4] = if vec_slot { [1, 2, 3, 3] } else { [2, 3, 0, 0] };
+            match g.sim.weighted("state_consumer", &w) {
+                0 => {}
+                1 => g.sink(state_out),
+                k => {
+                    let d = g.node_on(if k == 2 { Op::DeferTick } else { Op::DeferTickLazy }, state_out, Order::Bag, false);
+                    g.sink(d);
+                }
+            }
         }
         for o in holder_outs {
             g.sink(o);
